@@ -93,7 +93,7 @@ pub fn prelude(specs: &[TySpec]) -> String {
 /// (text of the value expression, value form tag, negative-literal flag, is-constant-value)
 pub fn value_forms(specs: &[TySpec]) -> Vec<(String, String, bool)> {
     let mut v: Vec<(String, String, bool)> = Vec::new();
-    for (l, tag) in [("1", "lit_int"), ("-1", "lit_negint"), ("300", "lit_int_big"), ("1.5", "lit_float"), ("-1.5", "lit_negfloat"), ("2im", "lit_imag_int"), ("2.5im", "lit_imag_float"), ("true", "lit_bool"), ("\"0101\"", "lit_bits4"), ("\"1\"", "lit_bits1"), ("10ns", "lit_duration")] {
+    for (l, tag) in [("1", "lit_int"), ("-1", "lit_negint"), ("300", "lit_int_big"), ("1.5", "lit_float"), ("-1.5", "lit_negfloat"), ("2im", "lit_imag_int"), ("2.5im", "lit_imag_float"), ("-2.5im", "lit_neg_imag_float"), ("- 2.5 im", "lit_neg_imag_float_spaced"), ("true", "lit_bool"), ("\"0101\"", "lit_bits4"), ("\"1\"", "lit_bits1"), ("10ns", "lit_duration")] {
         v.push((l.to_string(), tag.to_string(), tag == "lit_negint"));
     }
     for t in specs {
@@ -434,6 +434,30 @@ impl Table {
             _ => (value.get_type().clone(), None),
         };
         // for explicit source casts the value form *is* a cast: its own type is the value type
+        // a literal reaches the graph as a literal of the class it is written in
+        let written_class = match vtag.as_str() {
+            "lit_int" | "lit_negint" | "lit_int_big" => Some("Int"),
+            "lit_float" | "lit_negfloat" => Some("Float"),
+            "lit_imag_int" => Some("ImaginaryInt"),
+            "lit_imag_float" | "lit_neg_imag_float" | "lit_neg_imag_float_spaced" => Some("ImaginaryFloat"),
+            "lit_bool" => Some("Bool"),
+            "lit_bits4" | "lit_bits1" => Some("BitString"),
+            "lit_duration" => Some("TimingIntLiteral"),
+            _ => None,
+        };
+        if let Some(want) = written_class {
+            let mut e: &asg::TExpr = &value;
+            while let asg::Expr::Cast(c) = e.expression() {
+                e = c.operand();
+            }
+            if let asg::Expr::Literal(l) = e.expression() {
+                let got = format!("{:?}", l);
+                let got = got.split('(').next().unwrap_or("").to_string();
+                if got != want {
+                    fail(ctx, "node_type", format!("{} [literal class]", class), format!("the literal `{}` is written as {} but reaches the graph as {}", vtext, want, got));
+                }
+            }
+        }
         let source_is_cast = vtag.starts_with("cast");
         if source_is_cast {
             // an explicit cast stays a Cast node of the written type (checked where the written
